@@ -531,7 +531,9 @@ func (s *recordingSpan) RecordError(err error, opts ...trace.EventOption) {
 		return
 	}
 
-	opts = append(opts, trace.WithAttributes(
+	// Append to a copy: opts is the caller's variadic slice and may have spare
+	// capacity shared with other goroutines recording errors on other spans.
+	opts = append(opts[:len(opts):len(opts)], trace.WithAttributes(
 		semconv.ExceptionType(typeStr(err)),
 		semconv.ExceptionMessage(err.Error()),
 	))
